@@ -407,6 +407,22 @@ func init() {
 				}
 			}
 		}
+		// the iterators consumed by a template loop whose body continues / breaks: every value (group) is
+		// still handed out exactly once, in order, with a running index
+		for _, t := range [][2]string{
+			{"<%= for (v) in range(1, 6) { %><% if (v == 2) { continue } %><%= v %><% } %>", "13456"}, {"<%= for (i, v) in range(3, 8) { %><% if (v == 4) { continue } %><%= i %>:<%= v %>,<% } %>", "0:3,2:5,3:6,4:7,5:8,"},
+			{"<%= for (v) in until(6) { %><% if (v == 1) { continue } %><% if (v == 3) { continue } %><%= v %><% } %>", "0245"}, {"<%= for (v) in between(0, 7) { %><%= v %><% if (v < 5) { continue } %>!<% } %>", "12345!6!"},
+			{"<%= for (g) in groupBy(3, [1, 2, 3, 4, 5, 6]) { %><% if (g[0] == 3) { continue } %>[<%= for (x) in g { %><%= x %><% } %>]<% } %>", "[12][56]"},
+			{"<%= for (v) in range(1, 9) { %><% if (v == 2) { continue } %><% if (v == 5) { break } %><%= v %><% } %>", "134"}, {"<%= for (v) in range(1, 4) { %><%= for (w) in until(3) { %><% if (w == 1) { continue } %><%= v %><%= w %>,<% } %><% } %>", "10,12,20,22,30,32,40,42,"},
+		} {
+			c := RCase{Tmpl: t[0]}
+			o := runRender(c)
+			e.rep.Evaluations++
+			e.Count("iterator-loop-control")
+			if o.Class != "OK" || o.Out != t[1] {
+				e.Violate("c19-seq", fmt.Sprintf("%s rendered %q (%s %s), want %q", t[0], o.Out, o.Class, firstLine(o.Msg), t[1]), map[string]interface{}{"tmpl": t[0], "observed": o})
+			}
+		}
 		// the groups are a partition of the sequence groupBy was GIVEN: a caller that goes on appending to
 		// (or overwriting) its slice, handed over by pointer, while the groups are consumed changes nothing
 		for ln := 1; ln <= 12; ln++ {
